@@ -31,7 +31,14 @@ def assemble(text, timeout=10, before=None, **simkw):
             # a history of earlier loads, some of which may be rejected (the rejection itself is not this caller's concern)
             for b in before:
                 try:
-                    sim.load_program(b)
+                    if isinstance(b, tuple):
+                        # ("touch", text, addresses): the earlier program is loaded and its data is looked at through the memory
+                        # system (uncounted reads, as a display would do) — the simulation still has not started
+                        sim.load_program(b[1])
+                        for a_ in b[2]:
+                            sim.state.memory.read_word(a_, False)
+                    else:
+                        sim.load_program(b)
                 except CaseTimeout:
                     raise
                 except Exception:  # noqa
